@@ -1,6 +1,7 @@
 """C15 - queries and derived views agree with their definitions."""
 from __future__ import annotations
 
+import math
 import re
 from fractions import Fraction
 
@@ -39,14 +40,32 @@ REGEXES = ["a", "b", "A", ".", "a|b", "^a", "b$", "a*", "[ab]", "", "a b", "^$",
 def find_cases(draw):
     lab = st.sampled_from(["a", "b", "A", "ab", "ba", "a b", "", "B", "aa", "x"])
     spec = draw(st.one_of(gen.interval_tier(label=lab, style="grid"), gen.point_tier(label=lab, style="grid")))
-    return {"tier": spec, "q": draw(st.one_of(lab, st.sampled_from(REGEXES)))}
+    q = draw(st.one_of(lab, st.sampled_from(REGEXES)))
+    if draw(st.integers(0, 3)) == 0:
+        # two entries with the same label that are closer than the library's fuzzy entry equality: still two entries
+        lb = draw(st.sampled_from(["a", "ab", q]))
+        if spec["type"] == "point":
+            t0 = draw(st.integers(1, 40)) / 8 + 0.05
+            d = draw(st.sampled_from([math.ulp(t0), t0 * 3e-10, 0.0]))
+            spec["entries"] = sorted(spec["entries"] + [[t0, lb], [t0 + d, lb]])
+            spec["maxT"] = max(spec["maxT"], t0 + d)
+        else:
+            b0 = spec["maxT"]
+            d = max(b0, 1.0) * 3e-10
+            spec["entries"] = spec["entries"] + [[b0, b0 + d, lb], [b0 + d, b0 + 2 * d, lb]]
+            spec["maxT"] = b0 + 2 * d
+        spec["style"] = "dec"
+    return {"tier": spec, "q": q}
 
 
 def run_find(case):
     spec, q = case["tier"], case["q"]
     t = mk_tier(spec)
-    labels = [e[-1] for e in snap_tier(t)["entries"]]
+    ents = snap_tier(t)["entries"]
+    labels = [e[-1] for e in ents]
     cl = []
+    if any(x[-1] == y[-1] and all(math.isclose(a, b) for a, b in zip(x[:-1], y[:-1])) for x, y in zip(ents, ents[1:])):
+        cl.append("close_twins")
     want = [i for i, l in enumerate(labels) if l == q]
     if t.find(q) != want or t.find(q, False, False) != want:
         raise Violation("find-exact", f"find({q!r}) = {t.find(q)} on {labels}, expected {want}")
